@@ -70,6 +70,7 @@ func c13(c *Ctx) {
 	c.headerEndsAtFirstEmptyLine()
 	c.emptyPartsAreParts()
 	c.unconditionalCopiesAreNonFields()
+	c.announcedSizeIsSumOfParts("R13.11")
 	c.sectionWindow("R13.5")
 	P, R := c.P, c.R
 	c.singleIDHeader("R13.4")
